@@ -517,7 +517,7 @@ static uint64_t mix(uint64_t x) {
 
 static uint64_t g_soft = 400000, g_hard = 4000000;
 
-static uint64_t base_watch_t[VS_MAX_THREADS];
+static uint64_t base_watch_t[VS_MAX_THREADS], base_points_t[VS_MAX_THREADS];
 static void derive_cfg(vs_config_t* c, uint64_t base_seed, int i, uint64_t base_points, uint64_t base_watch, int tso_mode, char* sname,
                        size_t sn) {
   memset(c, 0, sizeof *c);
@@ -533,11 +533,13 @@ static void derive_cfg(vs_config_t* c, uint64_t base_seed, int i, uint64_t base_
     return;
   }
   int sel = (int)((h >> 8) % 8);
-  if (sel >= 6 && base_watch >= 4) {
-    // stall: random walk, plus one thread held at one of its own accesses to the watched object
+  // thread-level harnesses have short threads: there any scheduling point of the thread is a candidate stall point
+  int any = H->entry != 0 && ((h >> 33) & 1);
+  if (sel >= 6 && (base_watch >= 4 || any)) {
+    // stall: random walk, plus one thread held at one of its own accesses (to the watched object, or any)
     int cand[VS_MAX_THREADS], nc = 0;
     for (int t = 0; t < VS_MAX_THREADS; t++)
-      if (base_watch_t[t] > 0) cand[nc++] = t;
+      if ((any ? base_points_t[t] : base_watch_t[t]) > 0) cand[nc++] = t;
     if (nc > 0) {
       static const int ps[] = {2, 4, 6};
       static const uint64_t lens[] = {3000, 30000, 300000};
@@ -545,9 +547,10 @@ static void derive_cfg(vs_config_t* c, uint64_t base_seed, int i, uint64_t base_
       c->strategy = VS_STRAT_RANDOM;
       c->p_log2 = ps[(h >> 16) % 3];
       c->stall_thread = t + 1;
-      c->stall_at = 1 + (h >> 28) % base_watch_t[t];
+      c->stall_any = any;
+      c->stall_at = 1 + (h >> 36) % (any ? base_points_t[t] : base_watch_t[t]);
       c->stall_len = lens[(h >> 24) % 3];
-      snprintf(sname, sn, "stall_p%d", c->p_log2);
+      snprintf(sname, sn, any ? "stallany_p%d" : "stall_p%d", c->p_log2);
       if (c->tso) strncat(sname, "+tso", sn - strlen(sname) - 1);
       return;
     }
@@ -793,6 +796,7 @@ int main(int argc, char** argv) {
       base_points = shres->points;
       base_watch = res_label(shres, "watch_hits");
       for (int t = 0; t < VS_MAX_THREADS; t++) base_watch_t[t] = shres->watch_hits_t[t];
+      for (int t = 0; t < VS_MAX_THREADS; t++) base_points_t[t] = shres->points_t[t];
     }
     int found = 0;
     for (int k = 0; k < n_strat; k++)
